@@ -107,7 +107,11 @@ def gen_schema(ctx, depth):
     if r < 0.68:
         s = {"type": "array"}
         if rng.random() < 0.35:
-            s["prefixItems"] = [gen_schema(ctx, depth - 1) for _ in range(rng.randint(1, 2))]
+            s["prefixItems"] = [gen_schema(ctx, depth - 1) for _ in range(rng.randint(1, 3))]
+            if rng.random() < 0.3:
+                # a position nothing can fill (false, or a contradiction): the array has to end before it
+                k = rng.randrange(len(s["prefixItems"]))
+                s["prefixItems"][k] = False if rng.random() < 0.6 else {"allOf": [{"type": "string"}, {"type": "integer"}]}
             if rng.random() < 0.6:
                 s["items"] = gen_schema(ctx, depth - 1) if rng.random() < 0.7 else False
         else:
